@@ -31,6 +31,7 @@ func init() {
 	generators["twocause"] = genTwoCause
 	generators["lateanswer"] = genLateAnswer
 	generators["lateregister"] = genLateRegister
+	generators["longprobe"] = genLongProbe
 }
 
 func anyLatency(r rng, h time.Duration) Latency {
@@ -1843,6 +1844,62 @@ func genLateRegister(r rng, k int) *Spec {
 		s.Actions = append(s.Actions, Action{At: t1 + s.TTL + 6*h, Kind: "stop", Inst: "i1", Stop: &StopVariant{DeleteKey: true, Wait: true, Timeout: 5 * sec}})
 	}
 	s.Duration = s.TTL + 8*h
+	s.Sample = sampleFor(h)
+	return s
+}
+
+// ---------------------------------------------------------------------------
+// longprobe: a validation's read is slow - it stays in flight while the record goes away,
+// the instance is demoted by its heartbeat and wins the vacant key again under a new
+// token (or somebody else does); only then the read is served. Whatever the verdict, a
+// false one leaves no leader behind.
+// ---------------------------------------------------------------------------
+
+// LongProbeTotal is the size of the enumeration.
+func LongProbeTotal() int { return 3 * 2 * 2 * 2 }
+
+func genLongProbe(r rng, k int) *Spec {
+	idx := k % LongProbeTotal()
+	gone := []string{"outdel", "outexpire", "forge-then-del"}[idx%3]
+	idx /= 3
+	phase := []string{"req", "resp"}[idx%2]
+	idx /= 2
+	orDemote := idx%2 == 0
+	idx /= 2
+	two := idx%2 == 1
+	h := r.pickD(200*ms, 500*ms)
+	s := &Spec{TTL: 3 * h, NoPreempt: true, Tags: []string{"longprobe", gone, phase}}
+	s.Lat = Latency{Min: ms, Max: r.pickD(2*ms, 10*ms)}
+	n := 1
+	if two {
+		n = 2
+	}
+	s.Insts = mkInsts(n, 1, h)
+	s.Breaks = []BreakSpec{{Name: "lp", Client: "i0", Op: "Get", Nth: 1, Phase: phase}}
+	s.Actions = append(s.Actions, Action{At: 10 * ms, Kind: "start", Inst: "i0"})
+	if two {
+		s.Actions = append(s.Actions, Action{At: 300 * ms, Kind: "start", Inst: "i1"})
+	}
+	s.Actions = append(s.Actions,
+		Action{At: 2 * sec, Kind: "arm", Break: "lp"},
+		Action{Chain: true, Kind: "validate", Inst: "i0", Val: "bg", OrDemote: orDemote},
+		Action{After: ms, Kind: "waitbreak", Break: "lp", D: 5 * sec},
+	)
+	switch gone {
+	case "outdel":
+		s.Actions = append(s.Actions, Action{After: ms, Kind: "outdel", Inst: "g0"})
+	case "outexpire":
+		s.Actions = append(s.Actions, Action{After: ms, Kind: "outexpire", Inst: "g0"})
+	default:
+		s.Actions = append(s.Actions, Action{After: ms, Kind: "output", Inst: "g0", Val: `{"id":"intruder","token":"p"}`},
+			Action{After: h, Kind: "outdel", Inst: "g0"})
+	}
+	// heartbeat failure (<= H), periodic check (500 ms), jitter and retries: the key has a new owner by then
+	s.Actions = append(s.Actions,
+		Action{After: 2*h + 1200*ms, Kind: "release", Break: "lp"},
+		Action{After: ms, Kind: "waitapi", Inst: "i0", D: 5 * sec},
+	)
+	s.Duration = 6 * h
 	s.Sample = sampleFor(h)
 	return s
 }
